@@ -39,6 +39,7 @@ fn main() {
          let from: u64 = arg_after(&args, "--from").unwrap().parse().unwrap();
          let to: u64 = arg_after(&args, "--to").unwrap().parse().unwrap();
          let out = PathBuf::from(arg_after(&args, "--out").unwrap());
+         worker::start_watchdog(Some(out.with_extension("hang.json")));
          let sum = worker::run_range(&check, tier == "thorough", seed, from, to, &gen::gen_case);
          std::fs::write(&out, serde_json::to_string(&sum).unwrap()).unwrap();
       },
@@ -69,7 +70,11 @@ fn main() {
          }
          let case: case::Case = serde_json::from_str(&text).unwrap_or_else(|e| driver::harness_error(&format!("cannot parse {}: {}", file, e)));
          exec::pin_process(case.proc_first_pool);
+         *worker::REPLAY_FILE.lock().unwrap() = file.clone();
+         worker::start_watchdog(None);
+         worker::watch(&case);
          let obs = exec::execute(&case);
+         worker::unwatch();
          let v = oracle::judge(&case, &obs);
          if json_mode {
             println!(
